@@ -49,7 +49,7 @@ impl Check for LibQ {
             "C05" => tier.pick(2500, 60000),
             "C15" => 64,
             "C17" => tier.pick(2500, 60000),
-            _ => tier.pick(2500, 60000),
+            _ => tier.pick(1500, 40000),
         };
         Plan {
             cases,
@@ -447,7 +447,10 @@ fn c17(tier: Tier, seed: u64, case: u64) -> CaseReport {
                 }
             }
         }
-        if t.is_empty() {
+        // existing notes without any block: empty, whitespace only, front matter only
+        if i > 0 && rng.chance(1, 8) {
+            t = (*rng.pick(&["", "\n", "   \n\n", "---\ntitle: meta only\n---\n"])).to_string();
+        } else if t.is_empty() {
             t.push_str("x\n");
         }
         texts.insert(k.clone(), t);
@@ -479,6 +482,29 @@ fn c17(tier: Tier, seed: u64, case: u64) -> CaseReport {
         patch.export_key(&key.as_str().into()).unwrap_or_default()
     });
     let cpu = mon::thread_cpu_s() - cpu0;
+    // ---- the same squash through the `iwe squash` binary (sample)
+    if case % 8 == 0 {
+        let bin = mon::verif_root().join("harness/target/repo/release/iwe");
+        if let (true, Ok(lib_out)) = (bin.exists(), &r) {
+            let dir = mon::scratch_dir("c17");
+            for (k, t) in &texts {
+                let p = dir.join(format!("{}.md", k));
+                std::fs::create_dir_all(p.parent().unwrap()).unwrap();
+                std::fs::write(p, t).unwrap();
+            }
+            if let Ok(o) = std::process::Command::new(&bin).arg("squash").arg("-k").arg(&key).arg("-d").arg(depth.min(255).to_string()).current_dir(&dir).output() {
+                rep.count("cli_squash_runs", 1);
+                let got = String::from_utf8_lossy(&o.stdout).to_string();
+                if o.status.success() && got != *lib_out {
+                    let l = crate::checks::norm::first_diff_line(lib_out, &got);
+                    rep.violate("cli-squash-differs-from-library", "clean", format!("`iwe squash -k {} -d {}`: line {}: library {:?} vs binary {:?}", key, depth, l.0, l.1, l.2), replay.clone());
+                } else if !o.status.success() {
+                    rep.violate("cli-squash-failed", "clean", format!("`iwe squash -k {} -d {}` exited {}: {}", key, depth, o.status, String::from_utf8_lossy(&o.stderr).lines().last().unwrap_or("")), replay.clone());
+                }
+            }
+            let _ = std::fs::remove_dir_all(&dir);
+        }
+    }
     match r {
         Ok(out) => {
             rep.count("events", 1);
@@ -561,7 +587,7 @@ fn outline(formatted: &BTreeMap<String, String>) -> Outline {
 fn c18(tier: Tier, seed: u64, case: u64) -> CaseReport {
     let mut rep = CaseReport::new(case);
     let mut rng = Rng::for_case(seed, "c18", case);
-    let last = tier.pick(2500, 60000) - 1;
+    let last = tier.pick(1500, 40000) - 1;
     if case + 2 >= last {
         // pinned reproducers: a note that block-references itself / two notes referencing each other /
         // a note included only from above the first heading of an unreferenced note
@@ -697,6 +723,51 @@ fn c18(tier: Tier, seed: u64, case: u64) -> CaseReport {
             return rep;
         }
     };
+    // ---- the same listing through workspace/symbol and the `iwe paths` binary (sample)
+    if case % 6 == 0 {
+        crate::lsp::reset_log();
+        let mut s = crate::lsp::Server::start_mem(&texts, "");
+        if let crate::lsp::Outcome::Result(v) = s.request("workspace/symbol", json!({"query": ""})) {
+            rep.count("lsp_symbol_requests", 1);
+            let got: Vec<(String, String, u64)> = v.as_array().cloned().unwrap_or_default().iter().map(|x| (x["name"].as_str().unwrap_or("").to_string(), x["location"]["uri"].as_str().and_then(|u| s.key_of_uri(u)).unwrap_or_default(), x["location"]["range"]["start"]["line"].as_u64().unwrap_or(u64::MAX))).collect();
+            let want: Vec<(String, String, u64)> = searches[0].1.iter().map(|r| {
+                // the symbol name is the chain joined by a bullet; recover the chain from the path list
+                let chain = paths.iter().find(|p| p.0 == r.0 && p.1.join(" ") == norm(&r.1)).map(|p| p.1.join(" • ")).unwrap_or_else(|| r.1.clone());
+                (chain, r.0.clone(), r.2 as u64)
+            }).filter(|x| !x.0.is_empty()).collect();
+            let g2: Vec<(String, String, u64)> = got.iter().map(|x| (norm(&x.0), x.1.clone(), x.2)).collect();
+            let w2: Vec<(String, String, u64)> = want.iter().map(|x| (norm(&x.0), x.1.clone(), x.2)).collect();
+            if g2 != w2 {
+                let i = g2.iter().zip(w2.iter()).position(|(a, b)| a != b).unwrap_or(g2.len().min(w2.len()));
+                rep.violate("lsp-workspace-symbols-differ", "clean", format!("entry {}: symbol {:?} vs search result {:?} ({} vs {} entries)", i, g2.get(i), w2.get(i), g2.len(), w2.len()), replay.clone());
+            }
+        }
+        let _ = s.shutdown();
+        let bin = mon::verif_root().join("harness/target/repo/release/iwe");
+        if bin.exists() {
+            let dir = mon::scratch_dir("c18");
+            for (k, t) in &texts {
+                let p = dir.join(format!("{}.md", k));
+                std::fs::create_dir_all(p.parent().unwrap()).unwrap();
+                std::fs::write(p, t).unwrap();
+            }
+            if let Ok(o) = std::process::Command::new(&bin).arg("paths").current_dir(&dir).output() {
+                rep.count("cli_paths_runs", 1);
+                let got: Vec<String> = String::from_utf8_lossy(&o.stdout).lines().map(|l| norm(l)).collect();
+                let mut want: Vec<String> = paths.iter().filter(|p| p.2 <= 4).map(|p| norm(&p.1.join(" • "))).collect();
+                want.sort();
+                want.dedup();
+                let mut g = got.clone();
+                g.sort();
+                if g != want {
+                    let miss: Vec<&String> = want.iter().filter(|w| !g.contains(w)).take(3).collect();
+                    let extra: Vec<&String> = g.iter().filter(|w| !want.contains(w)).take(3).collect();
+                    rep.violate("cli-paths-differ", "clean", format!("`iwe paths` prints {} lines, the library lists {}; missing {:?} unexpected {:?}", g.len(), want.len(), miss, extra), replay.clone());
+                }
+            }
+            let _ = std::fs::remove_dir_all(&dir);
+        }
+    }
     let o = outline(&formatted);
     rep.count("events", 1 + searches.len() as u64);
     rep.count("headings", o.heads.len() as u64);
